@@ -193,6 +193,9 @@ def contact_lists(tab):
     e1 = [(i, i + 1) for i in range(min(6, n - 1))] + [(i, i + 2) for i in range(min(3, n - 2))]
     e1 += [(0, n - 1), (1, n - 2), (n - 3, 2)]
     e2 = [(n - 1 - k, k) for k in range(4)] + [(4, 1), (4, 1)] + ([(7, 12)] if n > 12 else [])
+    # BOTH orientations of a pair in one list (what itertools.product(group, group) of the docstring idiom produces)
+    if n > 5:
+        e2 += [(1, 3), (3, 1), (5, 2), (2, 5)]
     e3 = []
     if len(P) >= 4:
         e3 = [(P[i], P[i + 1]) for i in range(min(4, len(P) - 1))]
@@ -400,11 +403,21 @@ def _contacts(job):
             nres = max(max(p) for p in got_pairs) + 1
             ok = cm.shape == (nF, nres, nres)
             if ok:
-                ref = np.zeros_like(cm)
-                for k, (a, b) in enumerate(got_pairs):      # later duplicates overwrite earlier ones
-                    ref[:, a, b] = dist[:, k]
-                    ref[:, b, a] = dist[:, k]
-                ok = np.array_equal(ref, cm, equal_nan=True)
+                # every entry of the map is a value the pair {a, b} was returned with (a pair may be listed more than once
+                # and in both orientations; which of its values lands in the map is not specified), all others are zero
+                vals = {}
+                for k, (a, b) in enumerate(got_pairs):
+                    vals.setdefault((min(a, b), max(a, b)), []).append(dist[:, k])
+                rest = cm.copy()
+                for (a, b), cand in vals.items():
+                    for (i, j) in ((a, b), (b, a)):
+                        col = cm[:, i, j]
+                        hit = np.zeros(nF, bool)
+                        for v in cand:
+                            hit |= (col == v) | (np.isnan(col) & np.isnan(v))
+                        ok = ok and bool(hit.all())
+                        rest[:, i, j] = 0
+                ok = ok and not np.any(rest)
                 R.evals += int(cm.size)
             if not ok:
                 R.viol("contacts|squareform", "contact map differs from distances scattered by residue_pairs")
